@@ -163,7 +163,7 @@ fn c23_walk<const N: usize, const M: usize>(part: Part) -> WalkOut {
     }
     if let Some(t) = &target {
         assert!(
-            got.is_some() && bytes_of(&got.unwrap()) == bytes_of(t),
+            got.is_some() && eq16(&bytes_of(&got.unwrap()), &bytes_of(t)),
             "C23: the first instance after the given handle that has matching samples is selected (otherwise the call answers NoData although such an instance exists)"
         );
     }
@@ -173,12 +173,16 @@ fn c23_walk<const N: usize, const M: usize>(part: Part) -> WalkOut {
 
 // @check props=C23 tier=quick known=KF-C23-1
 // @desc next_instance must select the smallest instance handle greater than the given one that has samples matching the masks -- restricted to the trigger of KF-C23-1 (expected to fail: next_instance ignores the masks and the stored samples, so an instance without matching samples is selected and the wrapper answers NoData)
-// @bounds 3 instances in any storage order (handles with 2 symbolic bytes, symbolic view/instance state), 2 stored samples with symbolic instance and sample state, masks = every non-empty subset, previous handle none or any handle; unwind 18 (16-byte handle comparisons)
+// @bounds 3 instances in any storage order (handles with 2 symbolic bytes, symbolic view/instance state), 2 stored samples with symbolic instance and sample state, masks = every non-empty subset, previous handle none or any handle; unwind 4 (3 instances + 1)
 // @assume trigger KF-C23-1: an instance with a handle greater than the given one has matching samples and an instance without matching samples lies strictly between the given handle and it
 // @assume I1: one InstanceState per handle and every stored sample has one
+// @assume stub: InstanceHandle == / cmp / partial_cmp are replaced by the equivalent loop-free 128-bit comparisons (support_reader2::ih_eq, ih_cmp, ih_partial_cmp; equivalence proved over all inputs by c20_stub_equivalence)
 // @enc dcps::dcps_domain_participant::data_reader_entity::DataReaderEntity::next_instance
 #[kani::proof]
-#[kani::unwind(18)]
+#[kani::unwind(4)]
+#[kani::stub(<InstanceHandle as PartialEq<InstanceHandle>>::eq, super::support_reader2::ih_eq)]
+#[kani::stub(<InstanceHandle as Ord>::cmp, super::support_reader2::ih_cmp)]
+#[kani::stub(<InstanceHandle as PartialOrd<InstanceHandle>>::partial_cmp, super::support_reader2::ih_partial_cmp)]
 fn c23_next_instance__known() {
     let o = c23_walk::<2, 3>(Part::Known);
     kani::cover!(o.skipped_needed && o.got_some, "an instance without matching samples was selected");
@@ -186,12 +190,16 @@ fn c23_next_instance__known() {
 
 // @check props=C23 tier=quick
 // @desc next_instance selects the smallest instance handle greater than the given one that has samples matching the masks, whenever no instance without matching samples lies in between (negation of trigger KF-C23-1); the selected handle is always greater than the given one and an instance of the reader; None only if no instance has a greater handle
-// @bounds 3 instances in any storage order (handles with 2 symbolic bytes, symbolic view/instance state), 2 stored samples with symbolic instance and sample state, masks = every non-empty subset, previous handle none or any handle; unwind 18 (16-byte handle comparisons)
+// @bounds 3 instances in any storage order (handles with 2 symbolic bytes, symbolic view/instance state), 2 stored samples with symbolic instance and sample state, masks = every non-empty subset, previous handle none or any handle; unwind 4 (3 instances + 1)
 // @assume negation of trigger KF-C23-1
 // @assume I1: one InstanceState per handle and every stored sample has one
+// @assume stub: InstanceHandle == / cmp / partial_cmp are replaced by the equivalent loop-free 128-bit comparisons (support_reader2::ih_eq, ih_cmp, ih_partial_cmp; equivalence proved over all inputs by c20_stub_equivalence)
 // @enc dcps::dcps_domain_participant::data_reader_entity::DataReaderEntity::next_instance
 #[kani::proof]
-#[kani::unwind(18)]
+#[kani::unwind(4)]
+#[kani::stub(<InstanceHandle as PartialEq<InstanceHandle>>::eq, super::support_reader2::ih_eq)]
+#[kani::stub(<InstanceHandle as Ord>::cmp, super::support_reader2::ih_cmp)]
+#[kani::stub(<InstanceHandle as PartialOrd<InstanceHandle>>::partial_cmp, super::support_reader2::ih_partial_cmp)]
 fn c23_next_instance__rest() {
     let o = c23_walk::<2, 3>(Part::Rest);
     kani::cover!(o.target_exists && o.got_some, "the next instance with matching samples was selected");
@@ -201,12 +209,16 @@ fn c23_next_instance__rest() {
 
 // @check props=C23 tier=thorough
 // @desc as c23_next_instance__rest with 3 stored samples
-// @bounds 3 instances, 3 stored samples, otherwise as c23_next_instance__rest; unwind 18
+// @bounds 3 instances, 3 stored samples, otherwise as c23_next_instance__rest; unwind 4
 // @assume negation of trigger KF-C23-1
 // @assume I1: one InstanceState per handle and every stored sample has one
+// @assume stub: InstanceHandle == / cmp / partial_cmp are replaced by the equivalent loop-free 128-bit comparisons (support_reader2::ih_eq, ih_cmp, ih_partial_cmp; equivalence proved over all inputs by c20_stub_equivalence)
 // @enc dcps::dcps_domain_participant::data_reader_entity::DataReaderEntity::next_instance
 #[kani::proof]
-#[kani::unwind(18)]
+#[kani::unwind(4)]
+#[kani::stub(<InstanceHandle as PartialEq<InstanceHandle>>::eq, super::support_reader2::ih_eq)]
+#[kani::stub(<InstanceHandle as Ord>::cmp, super::support_reader2::ih_cmp)]
+#[kani::stub(<InstanceHandle as PartialOrd<InstanceHandle>>::partial_cmp, super::support_reader2::ih_partial_cmp)]
 fn c23_next_instance_n3__rest() {
     let o = c23_walk::<3, 3>(Part::Rest);
     kani::cover!(o.target_exists && o.got_some, "the next instance with matching samples was selected");
@@ -267,7 +279,7 @@ fn c23_wrapper(sample_in_b: bool) {
     core::mem::forget(r);
 }
 
-// @check props=C23 tier=quick known=KF-C23-1
+// @check props=C23 tier=thorough known=KF-C23-1
 // @desc mirrored read_next_instance(previous = none) end to end: instance A (smaller handle) has no stored samples, instance B has one matching sample: the call must return B's sample (expected to fail with NoData: KF-C23-1)
 // @bounds 2 instances in any storage order (handles with 2 symbolic bytes, symbolic states), 1 stored sample (any kind / sample state) of the larger instance, masks = the singleton masks matching it, max_samples 1; unwind 3, the loops over the collection being built capped at 2 iterations
 // @assume trigger KF-C23-1 (the first instance has no matching samples, a later one has)
@@ -285,7 +297,7 @@ fn c23_wrapper_skips__known() {
     c23_wrapper(true);
 }
 
-// @check props=C23 tier=quick
+// @check props=C23 tier=thorough
 // @desc mirrored read_next_instance(previous = none) end to end: the instance with the smaller handle has one matching sample, the other instance has none: the call returns exactly that sample
 // @bounds 2 instances in any storage order (handles with 2 symbolic bytes, symbolic states), 1 stored sample (any kind / sample state) of the smaller instance, masks = the singleton masks matching it, max_samples 1; unwind 3, the loops over the collection being built capped at 2 iterations
 // @assume negation of trigger KF-C23-1 (the first instance has matching samples)
